@@ -65,7 +65,12 @@ mod shared_provider {
                 f();
                 true
             }
-            Err(_) => false,
+            Err(poisoned) => {
+                // keep injecting contention after an injected panic: hold the recovered guard
+                let _guard = poisoned.into_inner();
+                f();
+                false
+            }
         }
     }
 }
